@@ -661,6 +661,34 @@ pub fn run(ctx: &mut Ctx) {
             check_object_array(&mut r, xs);
         }
     });
+    // long arrays of objects with many ties in the property and a unique tag each: stability (and the
+    // other by-property filters) on lengths where sort implementations switch algorithms
+    {
+        let n_long = r.ctx.scale(64u64, 640u64);
+        let lrng = r.ctx.rng("c14-long-objects");
+        for i in 0..n_long {
+            if !r.ctx.mine_idx(i) {
+                continue;
+            }
+            let mut g = lrng.fork(i);
+            let len = 21 + g.below(70);
+            let kinds = 2 + g.below(3) as i64;
+            let xs: Vec<RVal> = (0..len)
+                .map(|id| {
+                    let mut kv = vec![("q".to_string(), RVal::Int(id as i64))];
+                    // one element in eight lacks the property, one in eight has it nil
+                    match g.below(8) {
+                        0 => {}
+                        1 => kv.push(("p".to_string(), RVal::Nil)),
+                        _ => kv.push(("p".to_string(), RVal::Int(g.range(0, kinds)))),
+                    }
+                    RVal::Object(kv)
+                })
+                .collect();
+            r.ctx.count("family:long-object-arrays");
+            check_object_array(&mut r, &xs);
+        }
+    }
     // slice / concat on small arrays
     let small = vec![RVal::Nil, RVal::Int(1), s("a")];
     enumerate(&small, 4, |xs| {
